@@ -57,6 +57,8 @@ def run_result(ctx, desc, extra_sample=None):
         cov["local_method_name_in_lower_case"] += 1
     if desc.get("options", {}).get("log_level") in ("info", "debug"):
         cov["log_level.verbose"] += 1
+    if desc.get("cached_problem_on_a_box_far_from_zero"):
+        cov["cached_problem_on_a_box_far_from_zero"] += 1
     if desc.get("local_search_below_a_parent_on_an_objective_with_infinite_values"):
         cov["local_search_below_a_parent_on_an_objective_with_infinite_values"] += 1
     if "gsc" in desc:
@@ -378,6 +380,23 @@ class C02(RunSpec):
                 for f_ in d["sprout"].get("dfilters", []):
                     if f_.get("k") == "far":
                         f_["d"] = 1e-11
+            elif (idx // 10) % 4 == 0:
+                # a box of ordinary width a million away from zero: distinct genomes agree in their leading 20 bits and differ in the
+                # low-order ones only (keys of the result cache must keep the full double precision)
+                base = 2.0**20 + rng.uniform(0.0, 1.0)
+                d["box"] = {"cls": "faraway", "bounds": [[base, base + 1.0] for _ in d["box"]["bounds"]]}
+                for lv in d["levels"]:
+                    for k_ in ("sample_std", "mutation_std", "sigma0"):
+                        if isinstance(lv.get(k_), float):
+                            lv[k_] = rng.choice([0.05, 0.2])
+                    if isinstance(lv.get("mutation_std_step"), float):
+                        lv["mutation_std_step"] = 0.01
+                if d["sprout"].get("far"):
+                    d["sprout"]["far"] = 0.1
+                for f_ in d["sprout"].get("dfilters", []):
+                    if f_.get("k") == "far":
+                        f_["d"] = 0.1
+                d["cached_problem_on_a_box_far_from_zero"] = True
             d["options"]["random_seed"] = rng.randint(0, 10**6)
             other = rng.choice([f for f in gen.FAMILIES if f != d["obj"]["fam"] and f != "constant"])
             d["second_objective"] = gen.gen_objective(rng, len(d["box"]["bounds"]), other)
@@ -405,6 +424,7 @@ class C02(RunSpec):
             ("C02.objective_returned_a_value_of_type.float32", 50, "objective values returned as numpy float32"),
             ("C02.crossover_without_mutation_levels", 5, "levels running SEAWithCrossover / GAStyleSEA with p_mutation = 0"),
             ("C02.individuals_reevaluated_with_their_own_level_s_objective", 200, "stored individuals of trees with one objective per level, re-evaluated with their own level's objective"),
+            ("cached_problem_on_a_box_far_from_zero", 2, "runs on a cached problem whose box lies a million away from zero (genomes differ in low-order bits only)"),
             ("C02.cached_problem_pairs", 3, "pairs of cached problems with different objectives in one process"),
             ("C02.local_deme_with_3_iterates", 1, "local deme with >=3 recorded iterates"),
             ("C02.generations_with_carried_and_new", 1, "generation with carried-over individuals"),
